@@ -126,6 +126,67 @@ def rule_bind_thread(db: ProgramDB) -> List[Instance]:
                         f"the operand receives `{unparse(s.binding)}`, which does not derive from the incoming "
                         f"`{', '.join(sorted(bparams))}`", line=s.line))
     out.extend(_helper_sites(db, model))
+    out.extend(_carries_incoming(db, model))
+    return out
+
+
+def _carries_incoming(db: ProgramDB, model: SiteModel) -> List[Instance]:
+    """A child evaluated under the incoming binding yields rows that hold what the child bound - not necessarily the incoming
+    binding itself (a boolean attribute / method call / predicate over a variable that is not bound yet yields only what it
+    bound).  An operator that hands such a row to a SIBLING operand as its binding therefore merges the incoming binding
+    into it first, otherwise the sibling enumerates variables that are bound outside (and the enclosing operator relabels
+    the rows with its own values)."""
+    out = []
+    n = 0
+    for s in model.sites:
+        fn = s.fn
+        bparams = binding_params(fn)
+        if not s.loops or not bparams or s.binding is None or not isinstance(s.loops[-1], ast.For):
+            continue
+        inner = s.loops[-1]
+        # the stream of the loop was evaluated under the incoming binding itself
+        stream_calls = [c for c in ast.walk(inner.iter) if isinstance(c, ast.Call) and is_eval_name(call_attr(c) or "")]
+        if isinstance(inner.iter, ast.Name):
+            for d in local_defs(fn).get(inner.iter.id, []):
+                if isinstance(d, ast.AST):
+                    stream_calls += [c for c in ast.walk(d) if isinstance(c, ast.Call) and is_eval_name(call_attr(c) or "")]
+        under_incoming = any(c.args and isinstance(c.args[0], ast.Name) and c.args[0].id in bparams for c in stream_calls)
+        if not under_incoming:
+            continue
+        roots = loop_targets(inner)
+        bn = names_in(s.binding)
+        if not (bn & derived_closure(fn, roots)):
+            continue        # BIND-THREAD proper reports this
+        # which names carry the incoming binding at the site
+        carriers: Set[str] = set(bparams)
+        changed = True
+        while changed:
+            changed = False
+            for x in ast.walk(inner):
+                if getattr(x, "lineno", 0) > s.line:
+                    continue
+                if isinstance(x, ast.Call) and isinstance(x.func, ast.Attribute) and x.func.attr == "update" and isinstance(x.func.value, ast.Name) \
+                        and x.args and names_in(x.args[0]) & carriers and x.func.value.id not in carriers:
+                    carriers.add(x.func.value.id)
+                    changed = True
+                if isinstance(x, ast.Assign) and len(x.targets) == 1 and isinstance(x.targets[0], ast.Name) and x.targets[0].id not in carriers:
+                    v = x.value
+                    if (isinstance(v, ast.Dict) and any(k is None and names_in(val) & carriers for k, val in zip(v.keys, v.values))) \
+                            or (isinstance(v, ast.Call) and dotted(v.func) in ("copy", "dict") and v.args and names_in(v.args[0]) & carriers) \
+                            or (isinstance(v, ast.BinOp) and isinstance(v.op, ast.BitOr) and names_in(v) & carriers):
+                        carriers.add(x.targets[0].id)
+                        changed = True
+        n += 1
+        b = s.binding
+        ok = bool(bn & carriers) or (isinstance(b, ast.Dict) and any(k is None and names_in(val) & carriers for k, val in zip(b.keys, b.values)))
+        out.append(inst("BIND-THREAD", HOLDS if ok else VIOLATION, fn, s.key + "[carries the incoming binding]",
+                        f"`{unparse(s.binding)}` holds the row of the sibling merged with the incoming `{', '.join(sorted(bparams))}`" if ok else
+                        f"`{unparse(s.binding)}` is the row of the sibling alone: the incoming `{', '.join(sorted(bparams))}` is not merged into it, and a "
+                        f"sibling that bound only its own variable (a boolean attribute, method call or predicate over a variable that is not "
+                        f"bound yet) lets this operand enumerate the variables bound outside - and_(a.x <= 2, not_(and_(b.even(), a.x < b.x))) "
+                        f"returns pairs for which the condition is false", line=s.line))
+    if n < 4:
+        raise AnalysisError(f"only {n} operand(s) evaluated under a sibling's row found (the conjunction, the alternatives and the comparison were confirmed by reading)")
     return out
 
 
@@ -787,12 +848,26 @@ def rule_key_filter_keeps(db: ProgramDB) -> List[Instance]:
     for fn in db.all_functions():
         if fn.module not in ("symbolic", "conclusion_selector"):
             continue
+        defs = None
+
+        def over_unique_variables(e: ast.AST, depth: int = 0) -> bool:
+            """the expression is `_unique_variables_` of something, or a local computed from it (a union of two operands')"""
+            nonlocal defs
+            if "_unique_variables_" in unparse(e):
+                return True
+            if depth > 3:
+                return False
+            if defs is None:
+                defs = local_defs(fn)
+            return any(isinstance(d, ast.AST) and over_unique_variables(d, depth + 1)
+                       for nm in ast.walk(e) if isinstance(nm, ast.Name) for d in defs.get(nm.id, []))
         for x in own_nodes(fn.node):
             lam = None
             if isinstance(x, ast.Call) and call_attr(x) == "filter" and x.args and isinstance(x.args[0], ast.Lambda) \
-                    and "_unique_variables_" in unparse(x.func.value):
+                    and over_unique_variables(x.func.value):
                 lam = (x.args[0].args.args[0].arg, [x.args[0].body], x)
-            elif isinstance(x, (ast.ListComp, ast.GeneratorExp, ast.SetComp)) and x.generators and "_unique_variables_" in unparse(x.generators[0].iter) \
+            elif isinstance(x, (ast.ListComp, ast.GeneratorExp, ast.SetComp)) and x.generators and over_unique_variables(x.generators[0].iter) \
+                    and not (isinstance(x.generators[0].iter, ast.Call) and call_attr(x.generators[0].iter) == "filter") \
                     and isinstance(x.generators[0].target, ast.Name) and x.generators[0].ifs:
                 lam = (x.generators[0].target.id, list(x.generators[0].ifs), x)
             if lam is None:
@@ -831,4 +906,52 @@ def rule_key_filter_keeps(db: ProgramDB) -> List[Instance]:
                                 f"one's cached row / is suppressed as a duplicate", line=node.lineno))
     if n == 0:
         raise AnalysisError("no filter over _unique_variables_ found")
+    return out
+
+
+# ---------------------------------------------------------------------------------- DEDUP-UNDER-ROW-TRUTH
+def rule_dedup_under_row_truth(db: ProgramDB) -> List[Instance]:
+    """The duplicate test reads the node's truth flag: true and false rows are remembered apart, and the parent is asked
+    what it requires for a row of THAT truth.  A row is therefore tested under the truth it is handed on with: between the
+    test and the yield the flag is not assigned again (the assignment belongs before the test)."""
+    from ..cfg import CFG
+    out = []
+    se = db.cls("SymbolicExpression")
+    n = 0
+    for c in sorted([se] + se.all_subclasses(), key=lambda k: k.qualname):
+        for m in c.methods.values():
+            if m.cls is not c or not m.is_generator:
+                continue
+            if not any(call_attr(x) == "_is_duplicate_output_" for x in own_calls(m)):
+                continue
+            cfg = CFG(m)
+
+            def is_test(nd):
+                return nd.ast is not None and nd.kind in ("test", "stmt") and any(isinstance(x, ast.Call) and call_attr(x) == "_is_duplicate_output_"
+                                                                                   for x in ast.walk(nd.ast if nd.kind == "stmt" else getattr(nd.stmt, "test", nd.ast)))
+
+            def sets_flag(nd):
+                a = nd.ast
+                return nd.kind == "stmt" and isinstance(a, (ast.Assign, ast.AugAssign)) and any(
+                    isinstance(t, ast.Attribute) and t.attr == "_is_false_" and isinstance(t.value, ast.Name) and t.value.id == "self"
+                    for t in (a.targets if isinstance(a, ast.Assign) else [a.target]))
+            for d in [nd for nd in cfg.nodes if is_test(nd)]:
+                n += 1
+                bad = None
+                stop = lambda nd: nd.kind == "for" or is_test(nd)
+                for a in [nd for nd in cfg.nodes if sets_flag(nd)]:
+                    p1 = cfg.find_path(d.id, lambda nd, a=a: nd.id == a.id, kinds=("n",), blocked=lambda nd: stop(nd) or nd.has_yield)
+                    if p1 is None:
+                        continue
+                    p2 = cfg.find_path(a.id, lambda nd: nd.has_yield, kinds=("n",), blocked=stop)
+                    if p2 is not None:
+                        bad = (a, p1 + p2)
+                        break
+                out.append(inst("DEDUP-UNDER-ROW-TRUTH", VIOLATION if bad else HOLDS, m, f"{m.short}[{d.src()[:60]}]",
+                                f"`{bad[0].src()}` (line {bad[0].lineno}) assigns the truth of the row after the duplicate test and before the row is handed on: "
+                                f"the test ran under the truth the previous row left behind, so a false row is looked up among (and remembered with) the "
+                                f"true ones - the parent is asked what it requires for a true row, and a later true row with the same values is suppressed"
+                                if bad else "the row is handed on with the truth it was tested under", line=d.lineno))
+    if n < 4:
+        raise AnalysisError(f"only {n} duplicate test(s) in evaluation generators found")
     return out
